@@ -101,6 +101,45 @@ def run(tier):
             for k, n in o["counters"].items():
                 tot[k] = tot.get(k, 0) + n
             samples += o["samples"][:1]
+    # ---- the same comparison on tables compiled afresh: one compilation yields the Python tables (InlineGenerator) and the C++
+    #      tables (ArduinoGenerator, own namespace); hand-written sources with constructs the shipped data does not contain
+    import c03worker
+    import tzpipe
+    import tzsrc
+    fresh = [("features", c03worker.features()), ("unsupported", c03worker.unsupported())]
+    if not q:
+        fresh.append(("tzdata-2025b", c03worker.tz2025b(True)[0]))
+    fjobs = []
+    for pid, prog in fresh:
+        try:
+            indir = tzpipe.write_input_dir(tzsrc.render_long(prog), work / ("in-" + pid))
+            comp = tzpipe.compile_source(indir, "extended", 2000, 2050)
+            gen = work / ("gen-" + pid)
+            tzpipe.generate_arduino(comp, gen, "gendbx")
+            fexe = build(VERIF / "native" / "localres.cpp", "fast", extra_sources=[gen / f for f in ("zone_infos.cpp", "zone_policies.cpp", "zone_registry.cpp")],
+                         defines=["VERIF_GEN_REGISTRY_H=\"%s\"" % (gen / "zone_registry.h"), "VERIF_EXT_NS=gendbx"], includes=[gen], name="localres_" + pid)
+        except (tzpipe.CompilerDied, vlib.BuildError) as e:
+            v.inconclusive_because("fresh tables for %s could not be produced (C03 judges that): %s" % (pid, str(e)[-300:]))
+            continue
+        znames = sorted(comp.zone_infos)
+        tot["fresh.%s.zones" % pid] = len(znames)
+        for si, shn in enumerate([znames[i::N] for i in range(N) if znames[i::N]]):
+            wf = work / ("c04-%s-%02d.pkl" % (pid, si))
+            wf.write_bytes(pickle.dumps({"infos": {n: comp.zone_infos[n] for n in shn}, "index": {n: n for n in shn},
+                                         "grid_s": grid_s, "step": step, "exe": str(fexe)}))
+            fjobs.append(wf)
+    with cf.ThreadPoolExecutor(max_workers=N) as ex:
+        for o in ex.map(one, fjobs):
+            if "failed" in o:
+                v.inconclusive_because("C04 shard worker (fresh tables) failed: " + o["failed"][-400:])
+                continue
+            for w in o["witnesses"]:
+                w["data"] = "freshly compiled tables"
+                v.violation(w["key"], w["what"], w)
+            for k, n in o["counters"].items():
+                tot["fresh." + k] = tot.get("fresh." + k, 0) + n
+    if tot.get("fresh.instants", 0) < 5000:
+        v.inconclusive_because("freshly compiled tables were not compared (%r)" % {k: n for k, n in tot.items() if k.startswith("fresh")})
     # ---- option independence (python only), on the same decoded data
     opt_names = list(names)      # option independence: every zone, targeted instants (transitions, year boundaries)
     zic_segs = {}
@@ -117,10 +156,11 @@ def run(tier):
     if tot.get("instants", 0) < 10000 or tot.get("locals", 0) < 10000 or tot.get("opt.option_probes", 0) < 10000:
         v.inconclusive_because("deciding counters too low: %r" % tot)
     v.coverage.update({
-        "evaluations": tot.get("instants", 0) + tot.get("locals", 0) + tot.get("opt.option_probes", 0) + tot.get("opt.option_local_probes", 0),
+        "evaluations": tot.get("instants", 0) + tot.get("locals", 0) + tot.get("fresh.instants", 0) + tot.get("fresh.locals", 0) + tot.get("opt.option_probes", 0) + tot.get("opt.option_local_probes", 0),
         "distinct_nontrivial": tot.get("transitions", 0),
         "rule": "same data on both sides: every zone of the shipped zonedbx is read back through the C++ brokers (codec driver) and "
-                "decoded into the Python data model; %s. Instants: every transition the Python side computes +-{0,1,60} s, every "
+                "decoded into the Python data model; %s; plus tables compiled afresh by the real compiler from data/features.zi and "
+                "data/unsupported.zi (and tzdata 2025b in the thorough tier), where one compilation yields both the Python tables and the C++ tables. Instants: every transition the Python side computes +-{0,1,60} s, every "
                 "year boundary +-1 s, a %d s grid; local date-times: every %d min within +-200 min of each transition's wall-clock "
                 "image. The C++ side answers a query file (getUtcOffset/getDeltaOffset/getAbbrev, ZonedDateTime::forComponents); "
                 "compared as (total, dst, abbreviation) and as resolved instants (local - python offset == C++ epoch seconds). "
@@ -152,8 +192,8 @@ def shard_main(wf):
         zs = ZoneSpecifier(zi)
         instants, locals_ = zone_queries(zs, 2000, 2050, w["grid_s"], w["step"])
         c["transitions"] = c.get("transitions", 0) + len(locals_) // max(1, (400 // w["step"] + 1))
-        lines = ["%d i %d" % (idx, t) for t in instants]
-        lines += ["%d l %d %d %d %d %d %d" % (idx, l.year, l.month, l.day, l.hour, l.minute, l.second) for l in locals_]
+        lines = ["%s i %d" % (idx, t) for t in instants]
+        lines += ["%s l %d %d %d %d %d %d" % (idx, l.year, l.month, l.day, l.hour, l.minute, l.second) for l in locals_]
         p = subprocess.run([w["exe"], "--mode", "c04q"], input="\n".join(lines) + "\n", capture_output=True, text=True, timeout=3000)
         ans = [a for a in p.stdout.splitlines() if a[:2] in ("i ", "l ")]
         if p.returncode != 0 or len(ans) != len(lines):
